@@ -46,7 +46,7 @@ def _verif(event: str, **fields: typing.Any) -> None:
     import json  # pylint: disable=import-outside-toplevel
 
     _VERIF_SEQ[0] += 1
-    line = json.dumps({'ev': event, 'pid': os.getpid(), 'seq': _VERIF_SEQ[0], **fields}) + '\n'
+    line = json.dumps({'ev': event, 'pid': os.getpid(), 'ppid': os.getppid(), 'seq': _VERIF_SEQ[0], **fields}) + '\n'
     fdesc = os.open(os.path.join(_VERIF_TRACE, f'{os.getpid()}.ndjson'), os.O_WRONLY | os.O_APPEND | os.O_CREAT, 0o644)
     try:
         os.write(fdesc, line.encode())
@@ -245,6 +245,7 @@ class Executor(threading.Thread):
         """Start the executor."""
         self._stopped.clear()
         self._pool.start()
+        _verif('start', executor=id(self), pool=self._pool.pid)
         super().start()
 
     def stop(self) -> None:
